@@ -475,7 +475,7 @@ class SetGen:
                     ('hexstr', '00ff'), ('str', 'with space')]
             if self.exotic_defvals:
                 # literals that are not a whole number of octets, with leading zeros: every digit is part of the value
-                opts += [('hexstr', '0ABCD'), ('hexstr', '000'), ('hexstr', '0'), ('binstr', '000000001'), ('binstr', '000011110000'),
+                opts += [('str', ''), ('hexstr', '0ABCD'), ('hexstr', '000'), ('hexstr', '0'), ('binstr', '000000001'), ('binstr', '000011110000'),
                          ('binstr', '0'), ('hexstr', '00000'), ('binstr', '0000')]
             return rng.choice(opts)
         return None
